@@ -6159,6 +6159,7 @@ class LazyListContainer(list):
         offset = self._offsets[index] # KeyError
         fallback = stream_tell(self._stream, self._path)
         stream_seek(self._stream, offset, 0, self._path)
+        self._context._index = index
         parseret = self._subcon._parsereport(self._stream, self._context, self._path)
         stream_seek(self._stream, fallback, 0, self._path)
         self._values[index] = parseret
@@ -6219,6 +6220,7 @@ class LazyArray(Subconstruct):
         offsets = {0: offset}
         values = {}
         for i in range(count):
+            context._index = i
             try:
                 offset += sc._actualsize(stream, context, path)
                 stream_seek(stream, offset, 0, path)
